@@ -13,6 +13,8 @@ package main
 //   waiterr_default / waiterr_on_nil / waiterr_on_exiterror    shape of waitErrToExitCode
 //   runcmd_other_cmd_fields  every other field of the exec.Cmd that RunCommand sets (WaitDelay, Env, Cancel, …):
 //                          the model knows none, so the list must be empty
+//   intotorun_byproducts_uses  where InTotoRun mentions the variable holding RunCommand's map (the model: declared
+//                          empty, assigned from RunCommand, stored in the link - nothing rewrites the capture)
 //   intotorun_cmdargs_calls  the calls inside InTotoRun that receive its cmdArgs parameter, in source order
 //                          (the model: only the len() guard and RunCommand(cmdArgs, runDir))
 //
@@ -95,6 +97,7 @@ type rcFacts struct {
 	foundRun, foundWait bool
 	otherFields    []string // cmd.<Field> = … other than Stdout/Stderr/Dir
 	runCmdArgsCalls []string // calls in InTotoRun that receive cmdArgs
+	byProductsUses  []string // every statement/expression of InTotoRun that mentions its byProducts variable
 }
 
 func genRunCmd(repo string) (string, error) {
@@ -163,6 +166,7 @@ func genRunCmd(repo string) (string, error) {
 	}
 	fmt.Fprintf(&sb, "Definition runcmd_other_cmd_fields : list str := %s.\n", coqStrList(F.otherFields))
 	fmt.Fprintf(&sb, "Definition intotorun_cmdargs_calls : list str := %s.\n", coqStrList(F.runCmdArgsCalls))
+	fmt.Fprintf(&sb, "Definition intotorun_byproducts_uses : list str := %s.\n", coqStrList(F.byProductsUses))
 	fmt.Fprintf(&sb, "Definition waiterr_default : option Z := %s.\n", F.wdefault)
 	fmt.Fprintf(&sb, "Definition waiterr_on_nil : option Z := %s.\n", F.wnil)
 	fmt.Fprintf(&sb, "Definition waiterr_on_exiterror : exiterr_rule := %s.\n", F.wexiterr)
@@ -501,6 +505,61 @@ func analyseInTotoRun(fset *token.FileSet, fd *ast.FuncDecl, F *rcFacts) {
 		return
 	}
 	argsP := params[4]
+	// the variable that receives RunCommand's map
+	bp := ""
+	ast.Inspect(fd.Body, func(n ast.Node) bool {
+		if a, ok := n.(*ast.AssignStmt); ok && len(a.Rhs) == 1 && len(a.Lhs) >= 1 {
+			if c, ok := a.Rhs[0].(*ast.CallExpr); ok && identName(c.Fun) == "RunCommand" {
+				bp = identName(a.Lhs[0])
+			}
+		}
+		return true
+	})
+	if bp != "" {
+		mentions := func(n ast.Node) bool {
+			found := false
+			ast.Inspect(n, func(m ast.Node) bool {
+				if id, ok := m.(*ast.Ident); ok && id.Name == bp {
+					found = true
+				}
+				return true
+			})
+			return found
+		}
+		ast.Inspect(fd.Body, func(n ast.Node) bool {
+			switch x := n.(type) {
+			case *ast.AssignStmt:
+				for _, r := range x.Rhs {
+					if _, ok := r.(*ast.CompositeLit); ok && !mentions(x.Lhs[0]) {
+						return true // a struct literal: report the field that takes the variable
+					}
+				}
+				if mentions(x) {
+					F.byProductsUses = append(F.byProductsUses, exprStr(fset, x))
+				}
+				return false
+			case *ast.KeyValueExpr:
+				if mentions(x) {
+					F.byProductsUses = append(F.byProductsUses, exprStr(fset, x))
+				}
+				return false
+			case *ast.ExprStmt, *ast.ReturnStmt, *ast.IncDecStmt, *ast.SendStmt, *ast.DeferStmt, *ast.GoStmt:
+				if mentions(x) {
+					F.byProductsUses = append(F.byProductsUses, exprStr(fset, x))
+				}
+				return false
+			case *ast.IfStmt:
+				if x.Cond != nil && mentions(x.Cond) {
+					F.byProductsUses = append(F.byProductsUses, "if "+exprStr(fset, x.Cond))
+				}
+			case *ast.RangeStmt:
+				if mentions(x.X) {
+					F.byProductsUses = append(F.byProductsUses, "range "+exprStr(fset, x.X))
+				}
+			}
+			return true
+		})
+	}
 	ast.Inspect(fd.Body, func(n ast.Node) bool {
 		c, ok := n.(*ast.CallExpr)
 		if !ok {
